@@ -66,7 +66,18 @@ def build_pair(cfg, spilog=True, horizon=20 * 1000 * MS):
     b.open_rx_pipe(cfg["pipe"], addr)
     b.listen = True
     a.listen = False
+    if cfg.get("tx_hist") == "rx0":
+        # the transmitter was a receiver on pipe 0 before: its own reading address must not end up in TX_ADDR
+        a.open_rx_pipe(0, bytes([0x0F, 0x1E, 0x2D, 0x3C, 0x4B][:cfg["aw"]]))
     a.open_tx_pipe(addr)
+    if cfg.get("tx_hist") == "rx0":
+        a.listen = True
+        w.advance(300 * US)
+        a.listen = False
+        if hasattr(a, "__enter__"):  # (not in rf24_lite)
+            a.__exit__(None, None, None)
+            w.advance(300 * US)
+            a.__enter__()
     w.advance(300 * US)
     return w, a, ra, b, rb
 
